@@ -549,7 +549,9 @@ fn is_public_mint(
         return Ok(true);
     }
 
-    let res: HasMemberResponse = if is_merkle_tree_wl(&wl_config) && proof_hashes.is_some() {
+    // stage and allocation are caller-chosen; they count only when bound by a verified proof
+    let verified_by_proof = is_merkle_tree_wl(&wl_config) && proof_hashes.is_some();
+    let res: HasMemberResponse = if verified_by_proof {
         deps.querier.query_wasm_smart(
             whitelist.clone(),
             &WhitelistMtreeQueryMsg::HasMember {
@@ -582,8 +584,8 @@ fn is_public_mint(
     // Check wl per address limit
     let wl_mint_count = whitelist_mint_count(deps, info, whitelist.clone())?;
     let max_count = match allocation {
-        Some(allocation) => allocation,
-        None => wl_config.per_address_limit,
+        Some(allocation) if verified_by_proof => allocation,
+        _ => wl_config.per_address_limit,
     };
     if wl_mint_count.0 >= max_count {
         return Err(ContractError::MaxPerAddressLimitExceeded {});
